@@ -11,6 +11,7 @@ import (
 	"reflect"
 	"sort"
 	"strings"
+	"time"
 	"unicode/utf8"
 
 	"golang.org/x/tools/go/ssa"
@@ -894,4 +895,20 @@ func init() {
 		}
 		return nil
 	}
+}
+
+func init() {
+	// time.Time values are zero structures in the engine (time.Now is stubbed to
+	// the zero time): formatting is done by the host on the zero time.
+	intrinsics["(time.Time).Format"] = func(fr *frame, fn *ssa.Function, a []value) value {
+		if !isZeroValue(a[0]) {
+			panic(unsupported("formatting a non-zero time"))
+		}
+		layout, ok := a[1].(string)
+		if !ok {
+			panic(unsupported("symbolic time layout"))
+		}
+		return time.Time{}.UTC().Format(layout)
+	}
+	intrinsics["(time.Time).Unix"] = func(fr *frame, fn *ssa.Function, a []value) value { return int64(0) }
 }
